@@ -86,7 +86,10 @@ class P(vlib.Prop):
             "headers), a real gRPC unary and stream call through ClientConfig.ToClientConn with 6 key styles x all secrets, TLS key "
             "pair loading; what arrives is compared with the configured secret; whole headers maps (10 key forms, rotated distinct secrets, "
             "caller-set headers / metadata, Host configured / empty / absent) as CHttpClient / CHttpServer / CGrpc cases against the "
-            "map-to-wire model, and all 144 combinations of cert/key file and PEM sources as CTls cases. Oracle-only paths: sigs.k8s.io/yaml, gob, xml, text/template, log, slog, json.MarshalIndent, "
+            "map-to-wire model, and all 144 combinations of cert/key file and PEM sources as CTls / CTlsErr cases. Failing requests "
+            "(connection refused, protocol mismatch, timeout, hang-up, grpc dead endpoint / error status; GET, POST, unary, stream) with a "
+            "headerless baseline client: error texts compared through the model (CFail) and, with all renderings and the component's log "
+            "entries, searched for the configured values. Oracle-only paths: sigs.k8s.io/yaml, gob, xml, text/template, log, slog, json.MarshalIndent, "
             "Sprintf with extra/indexed/star operands, sugared logger, console encoder, real confighttp/configgrpc/configtls structs.")
     trusted_base = [
         "Coq 8.16.1 kernel + vm_compute (coqc); no axioms (Print Assumptions: closed under the global context)",
